@@ -27,6 +27,8 @@ def run(ctx):
     # what reads a scheme-less or protocol-relative url as having a protocol decides where its host starts
     from .c20 import protocol_language
     protocol_language(ctx, "R9p")
+    from .c20 import branch_templates
+    branch_templates(ctx, "R9b")
     # both output modes denote the same resource: the mode table and the order rule of C02
     from .c02 import mode_table, order_rule
     order_rule(ctx, "R10")
